@@ -137,4 +137,14 @@ example :
     Mime.passes (b!"----=_Part_Mixed_3_0") [(b!"Content-Type: text/plain\r\n\r\nabove\r\n------=_Part_Mixed_3\r\nContent-Type: text/plain\r\n\r\nbelow")] = true := by
   decide
 
+/-- C02.7''  **end to end**: the repaired writer renders the children, settles on a boundary none of them contains
+(`assign`, the model of `reconstructPartDFS` with `boundaryOccursIn`), and writes; a reader takes the text apart into
+exactly the tree it was written from — for every stored tree, any depth, any number of parts, **any octets in the leaves**.
+Only the header reader remains a parameter (library code: it reads the container headers the writer produces and takes no
+leaf for a container); the boundary bases contain no carriage return (they are `----=_Part_<Subtype>_<id>`). -/
+theorem repaired_tree_as_written (K : Mime.HeaderReader) (fuel : Nat) (s : Mime.Src) (t : Mime.Tree) (f : Nat)
+    (ha : Mime.assign fuel s = some t) (hb : Mime.basesOK s = true) (hr : Mime.headersRead K t = true)
+    (hf : Mime.depth t ≤ f) : Mime.parse K f (Mime.core t) = some t :=
+  Mime.repaired_tree_reads_back K fuel s t f ha hb hr hf
+
 end Raven.Props.C02
